@@ -66,7 +66,7 @@ def _val(v):
         return ("d", v.year, v.month, v.day)
     if isinstance(v, dt_.time):
         o = v.utcoffset()
-        return ("t", v.hour, v.minute, v.second, v.microsecond, None if o is None else obs.td_us(o))
+        return ("t", v.hour, v.minute, v.second, v.microsecond, v.fold, None if o is None else obs.td_us(o))
     if isinstance(v, tuple) and hasattr(v, "_fields") or type(v).__name__ in ("struct_time", "IsoCalendarDate"):
         return ("tuple", tuple(v))
     return v
